@@ -748,6 +748,43 @@ def branch_hits(molrec, cfg):
     return hits
 
 
+def family_calls(rng):
+    """[(arrays, cfg)] in call order: 2-3 molecules sharing symbols, masses, real, geometry, charges, multiplicities and
+    fragments (everything the hash covers) but not user labels, fix_com / fix_orientation, fix_symmetry, name; each written for
+    the programs whose block shows those fields, every molecule once more after the others."""
+    arrays, _ = gen_molrec(rng)
+    arrays = dict(arrays)
+    for k in ("input_units_to_au", "fix_com", "fix_orientation", "fix_symmetry", "name", "connectivity"):
+        arrays.pop(k, None)
+    nat = len(arrays["elez"])
+    variants = []
+    flags = [(False, False), (True, False), (False, True), (True, True)]
+    rng.shuffle(flags)
+    for i in range(rng.choice([2, 3])):
+        a = dict(arrays)
+        if flags[i][0]:
+            a["fix_com"] = True
+        if flags[i][1]:
+            a["fix_orientation"] = True
+        if i > 0:
+            a["elbl"] = [rng.choice(LABELS) for _ in range(nat)]
+            sy = rng.choice(SYMMS)
+            if sy:
+                a["fix_symmetry"] = sy
+            a["name"] = rng.choice(["water", "mol_1", "dimer"])
+        variants.append(a)
+    order = list(range(len(variants)))
+    rng.shuffle(order)
+    order = order + [order[0]]
+    calls = []
+    for i in order:
+        a = dict(variants[i])                      # a fresh dict per call: its id() keys the predecessors
+        for d in ("psi4", "nwchem", rng.choice(["gamess", "molpro", "qchem", "mrchem", "cfour", "xyz+"])):
+            calls.append((a, {"dtype": d, "units": rng.choice([None, "Bohr", "Angstrom"]), "afmt": None, "gfmt": None,
+                              "width": 17, "prec": rng.choice([8, 12])}))
+    return calls
+
+
 def history_spec(rng, live):
     """one molecule, a shuffled sequence of calls: every dtype once plus the same dtype under the other unit right after"""
     arrays, _ = gen_molrec(rng)
@@ -768,7 +805,7 @@ def correspond(ctx):
     corr = Corr()
     corr.rule = ("validated molecules (from_arrays, and via Molecule -> from_schema) of 1-12 atoms with ghosts, labels, 1-4 fragments, "
                  "charges, multiplicities, Bohr/Angstrom, pinned input_units_to_au, names, frame flags, symmetry, connectivity x all 14 "
-                 "dtypes x unit spellings incl. nm/pm x width/precision x atom_format/ghost_format overrides; a case is non-trivial "
+                 "dtypes x unit spellings incl. nm/pm (+ families of hash-equal molecules differing in labels / frame flags / symmetry / name, one after the other) x width/precision x atom_format/ghost_format overrides; a case is non-trivial "
                  "when the implementation returned text (not an exception); distinct = distinct (molecule, configuration)")
     rng = ctx.rng
     cases = []
@@ -783,6 +820,15 @@ def correspond(ctx):
             arrays.pop("input_units_to_au", None)
         for cfg in gen_cfgs(rng, ctx.thorough):
             cases.append((via, arrays, cfg, via))
+    # ---- families: molecules equal in every HASHED field, different in labels / frame flags / symmetry / name, written one
+    #      after the other through Molecule.to_string (state keyed by the hash must not leak from one to the next)
+    after = {}
+    for k in range(40 if ctx.thorough else 8):
+        group = []
+        for arrays_v, cfg in family_calls(rng):
+            after[id(arrays_v)] = list(group)
+            cases.append(("family", arrays_v, cfg, "molecule"))
+            group.append([arrays_v, cfg])
     terms, meta = [], []
     for stream, arrays, cfg, via in cases:
         try:
@@ -793,6 +839,8 @@ def correspond(ctx):
         corr.count(stream)
         corr.hit(f"{cfg['dtype'].lower()}:{'Ok' if out[0] == 'Ok' else out[1]}")
         case = {"arrays": arrays, "cfg": cfg, "via": via}
+        if stream == "family":
+            case["after"] = after.get(id(arrays), [])
         if out[0] == "Ok":
             corr.nontriv(case)
             for h in branch_hits(molrec, cfg):
@@ -860,6 +908,8 @@ def replay(ctx, rp):
     if rp.get("stream") == "history" or "cfgs" in case:
         bad = text_history.check_to_string(case)
         return {"input": case, "implementation": None, "oracle": bad, "fails": bool(bad)}
+    for a, c in case.get("after", []):               # the calls that preceded this one in its family
+        run_case(a, c, case.get("via", "from_arrays"))
     molrec, out, conv, conn = run_case(case["arrays"], case["cfg"], case.get("via", "from_arrays"))
     bad = oracle(molrec, case["cfg"], out)
     return {"input": case, "implementation": list(out), "oracle": bad, "fails": bool(bad)}
@@ -889,7 +939,9 @@ LEVEL_TEXT = (
     "spin cards after). The model is tied to the implementation on every run by BYTE-EXACT comparison of "
     "the rendered text and of the keyword dictionary (all 14 dtypes, both entry points to_string and Molecule.to_string, incl. "
     "exceptions raised), and an independent per-dtype reader re-derives atoms, spellings, coordinates, charge, multiplicity, fragment "
-    "blocks and announced unit from the implementation's own output.")
+    "blocks and announced unit from the implementation's own output; call sequences on one molrec / one live Molecule are compared with "
+    "the reversed sequence in a fresh interpreter, and families of hash-equal molecules (different labels, frame flags, symmetry, name) "
+    "are written one after the other, each judged against its own record.")
 LEVEL_NOTE = (
     "Clause map: atoms once/in order/spelling -> atoms_listed_once_in_order + program_spellings (lines, 14 dtypes), on characters for "
     "psi4, xyz, xyz+, qchem, nwchem, cfour, orca, madness, terachem; conversion and precision -> is_view + factor_table + "
